@@ -3,7 +3,7 @@ from vf.props import reg, COMMON_ASSUMPTIONS
 
 reg(Prop(
     'C10',
-    [Harness('c10_bitfield', parts=16, slices=6)],
+    [Harness('c10_bitfield', parts=16, slices=6, thorough_cfg='asan1')],
     rule='Configurations: enums with 1, 3, 8, 9, 17 enumerators x storage words u8/u16/u32/u64 (20 core configurations) '
          'plus extras (other underlying enum types, 16/33/65 enumerators, the default word type). Model of a bitfield = '
          'integer mask restricted to the enum size; the canonical real bitfield of a set is built by set() on null(). '
